@@ -163,6 +163,11 @@ pub fn perturb(l: &Layout, fi: usize) -> Vec<(String, Layout)> {
             nf.array = Some(ArrayDecl { stride: Some(w - 1), ..a.clone() });
             push("stride-below-width", nf, None);
         }
+        if f.ranges.len() == 1 {
+            let mut nf = f.clone();
+            nf.array = Some(ArrayDecl { stride: Some(0), ..a.clone() });
+            push("stride-zero", nf, None);
+        }
         if f.ranges.len() > 1 && a.stride.is_some() {
             let mut nf = f.clone();
             nf.array = Some(ArrayDecl { stride: None, ..a.clone() });
@@ -228,7 +233,7 @@ pub fn corpus_c09(tier: Tier, seed: u64) -> Vec<Decl> {
     let mut out: Vec<Decl> = Vec::new();
     let mut bases: Vec<Layout> = Vec::new();
     // seeds of perturbation: random rule-valid layouts of every shape and kind, and systematic ones
-    let n = tier.pick(500usize, 3000usize);
+    let n = tier.pick(500usize, 6000usize);
     let mut p = Profile::general();
     p.kinds = [3, 6, 4, 2, 1, 1, 1];
     p.shapes = [5, 3, 2, 2];
